@@ -19,6 +19,15 @@
 #define QK_ISDIGIT 13
 #define QK_LASTCHAR 14
 #define QK_CASESTR 15
+#define QK_CASECMP 16
+#define QK_CMPFLD 17
+#define QK_FIRSTDIFF 18
+#define QK_FIRSTSAME 19
+#define QK_LASTDIFF 20
+#define QK_LASTSAME 21
+#define QK_PBRK 22
+#define QK_CLASS 23 /* CLSK: 1 alphanumeric 2 ascii 3 hex 4 lowercase 5 uppercase 6 mixedcase */
+#define QK_WCMP 24  /* wcscmp_s / wcsncmp_s / wmemcmp_s style: sign of the first difference of wchar_t elements */
 #ifndef DN
 #define DN 4
 #endif
@@ -29,7 +38,10 @@
     S(unsigned char, dbos) S(unsigned char, sbos)
 #include "vh.h"
 static const unsigned ALPHA[6] = {0, 'a', 'b', 'A', '1', 0xE9};
-#define BYTES (QK == QK_MEMCMP || QK == QK_MEMCHR || QK == QK_MEMRCHR)
+#ifndef WSTOPNUL
+#define WSTOPNUL 1
+#endif
+#define BYTES (QK == QK_MEMCMP || QK == QK_MEMCHR || QK == QK_MEMRCHR || (QK == QK_WCMP && !WSTOPNUL))
 
 static int lc(int c) { return (c >= 'A' && c <= 'Z') ? c + 32 : c; }
 
@@ -39,19 +51,28 @@ VH_MAIN_BEGIN
     T *dest = (T *)vh_alloc(DN * sizeof(T));
     T *src = (T *)vh_alloc(SN * sizeof(T));
     T d0[DN], s0[SN];
+#ifdef FULLBYTES /* every element value (8 bits) */
+    for (unsigned i = 0; i < DN; i++) d0[i] = dest[i] = (T)(char)in.d[i];
+    for (unsigned i = 0; i < SN; i++) s0[i] = src[i] = (T)(char)in.s[i];
+#else
     for (unsigned i = 0; i < DN; i++) d0[i] = dest[i] = (T)(char)ALPHA[in.d[i] % 6];
     for (unsigned i = 0; i < SN; i++) s0[i] = src[i] = (T)(char)ALPHA[in.s[i] % 6];
+#endif
     /* valid operands: strings terminated inside dmax / slen (not required for the mem* functions) */
     unsigned dl = DN, sl = SN;
     for (unsigned i = 0; i < DN; i++) if (d0[i] == 0 && dl == DN) dl = i;
     for (unsigned i = 0; i < SN; i++) if (s0[i] == 0 && sl == SN) sl = i;
-#if !BYTES && !defined(PROP_C02) /* C02: unterminated arrays that exactly fill their declared size are first-class inputs */
+#if !BYTES && QK != QK_CMPFLD && !defined(PROP_C02) /* C02: unterminated arrays that exactly fill their declared size are first-class inputs */
     ASSUME(dl < dmax);
-#if QK != QK_CHR && QK != QK_RCHR && QK != QK_FIRSTCHAR && QK != QK_LASTCHAR && QK != QK_NLEN && QK != QK_ISDIGIT
+#if QK != QK_CHR && QK != QK_RCHR && QK != QK_FIRSTCHAR && QK != QK_LASTCHAR && QK != QK_NLEN && QK != QK_ISDIGIT && QK != QK_CLASS && \
+    QK != QK_CASECMP && QK != QK_CMPFLD && !(QK >= QK_FIRSTDIFF && QK <= QK_LASTSAME)
     ASSUME(sl < slen);
 #endif
 #endif
-#if QK == QK_STRCMP || QK == QK_PREFIX
+#if QK == QK_CMPFLD
+    ASSUME(SN >= dmax); /* two fields of dmax characters */
+#endif
+#if QK == QK_STRCMP || QK == QK_PREFIX || QK == QK_CASECMP || (QK >= QK_FIRSTDIFF && QK <= QK_LASTSAME)
     /* truthful src for the functions without slen: terminated, or at least dmax elements long */
     ASSUME(sl < SN || SN >= dmax);
 #endif
@@ -59,7 +80,17 @@ VH_MAIN_BEGIN
     (void)srcbos;
     int ch = in.ch;
     ASSUME(ch >= 0 && ch <= 255);
+    const size_t cnt = (size_t)ch; /* count argument of the n-variants */
+    (void)cnt;
     ch = (int)ALPHA[ch % 6];
+    /* any character between 'Z' and 'a' (0x5B..0x60) in an operand: used by a known-finding predicate */
+    int kf_punct = 0;
+    for (unsigned i = 0; i < DN; i++) if ((unsigned char)d0[i] >= 0x5B && (unsigned char)d0[i] <= 0x60) kf_punct = 1;
+    for (unsigned i = 0; i < SN; i++) if ((unsigned char)s0[i] >= 0x5B && (unsigned char)s0[i] <= 0x60) kf_punct = 1;
+    (void)kf_punct;
+#ifdef VH_EXCLUDE
+    ASSUME(!(VH_EXCLUDE));
+#endif
     set_str_constraint_handler_s(vh_handler);
     set_mem_constraint_handler_s(vh_handler);
     errno_t rc = 0;
@@ -180,6 +211,92 @@ VH_MAIN_BEGIN
         int all = dl >= 1;
         for (unsigned i = 0; i < DN; i++) if (i < dl && !(d0[i] >= '0' && d0[i] <= '9')) all = 0;
         CHECK("C10", (r != 0) == (all != 0), "classification differs");
+    }
+#elif QK == QK_CASECMP
+    rc = CALL;
+    {
+        int want = 0, stop = 0;
+        for (unsigned i = 0; i < DN; i++) {
+            if (stop || i >= dmax || i >= SN) continue;
+            int a = lc((unsigned char)d0[i]), b = lc((unsigned char)s0[i]);
+            if (a != b) { want = a < b ? -1 : 1; stop = 1; }
+            else if (a == 0) stop = 1;
+        }
+        CHECK("C10", rc == EOK, "valid operands rejected");
+        CHECK("C10", (cmp < 0) == (want < 0) && (cmp > 0) == (want > 0), "sign differs from strcasecmp");
+    }
+#elif QK == QK_CMPFLD
+    rc = CALL;
+    {
+        int want = 0, hi = 0;
+        for (unsigned i = 0; i < DN; i++) {
+            if (want != 0 || i >= dmax || i >= SN) continue;
+            unsigned char a = (unsigned char)d0[i], b = (unsigned char)s0[i];
+            if (a != b) { want = a < b ? -1 : 1; hi = (a | b) & 0x80; }
+        }
+        CHECK("C10", rc == EOK, "valid operands rejected");
+        CHECK("C10", (cmp == 0) == (want == 0), "fields of dmax characters: equality differs from memcmp");
+        /* order of bytes above 0x7f: memcmp compares unsigned, the documentation does not say: sign checked for 7-bit differences */
+        if (!hi) CHECK("C10", (cmp < 0) == (want < 0), "sign differs from memcmp");
+    }
+#elif QK >= QK_FIRSTDIFF && QK <= QK_LASTSAME
+    rc = CALL;
+    {
+        int first = -1, last = -1, stop = 0;
+        for (unsigned i = 0; i < DN; i++) {
+            if (stop || i >= dmax || i >= SN) continue;
+            if (d0[i] == 0 || s0[i] == 0) { stop = 1; continue; }
+            int hit = (QK == QK_FIRSTDIFF || QK == QK_LASTDIFF) ? d0[i] != s0[i] : d0[i] == s0[i];
+            if (hit) { if (first < 0) first = (int)i; last = (int)i; }
+        }
+        int want = (QK == QK_FIRSTDIFF || QK == QK_FIRSTSAME) ? first : last;
+        if (want >= 0) {
+            CHECK("C10", rc == EOK, "position exists but not reported");
+            CHECK("C10", count == (rsize_t)want, "index differs");
+        } else
+            CHECK("C10", (rc == ESNODIFF || rc == ESNOTFND) && count == 0, "no such position but success / index returned");
+    }
+#elif QK == QK_PBRK
+    rc = CALL;
+    {
+        unsigned nl = sl < slen ? sl : (unsigned)slen;
+        int found = -1;
+        for (unsigned i = 0; i < DN; i++) {
+            if (found >= 0 || i >= dl) continue;
+            for (unsigned k = 0; k < SN; k++) if (k < nl && d0[i] == s0[k]) found = (int)i;
+        }
+        if (found >= 0) CHECK("C10", rc == EOK && res == dest + found, "position differs from strpbrk");
+        else CHECK("C10", rc == ESNOTFND && res == 0, "no character of the set occurs but a position / success returned");
+    }
+#elif QK == QK_CLASS
+    {
+        bool r = CALL;
+        int all = 1;
+        for (unsigned i = 0; i < DN; i++)
+            if (i < dl) {
+                unsigned char c = (unsigned char)d0[i];
+                int dg = c >= '0' && c <= '9', lo = c >= 'a' && c <= 'z', up = c >= 'A' && c <= 'Z';
+                int in = CLSK == 1 ? (dg || lo || up) : CLSK == 2 ? c < 128 : CLSK == 3 ? (dg || (c >= 'a' && c <= 'f') || (c >= 'A' && c <= 'F'))
+                       : CLSK == 4 ? lo : CLSK == 5 ? up : (lo || up);
+                if (!in) all = 0;
+            }
+        if (dl == 0 && CLSK != 2) all = 0; /* documented: the empty string is not a member */
+        CHECK("C10", (r != 0) == (all != 0), "classification differs");
+    }
+#elif QK == QK_WCMP
+#if !WSTOPNUL
+    ASSUME(slen <= dmax);
+#endif
+    rc = CALL;
+    {
+        int want = 0, stop = 0;
+        for (unsigned i = 0; i < DN; i++) {
+            if (stop || i >= WLIM || i >= SN) continue;
+            if (d0[i] != s0[i]) { want = d0[i] < s0[i] ? -1 : 1; stop = 1; }
+            else if (WSTOPNUL && d0[i] == 0) stop = 1;
+        }
+        CHECK("C10", rc == EOK, "valid operands rejected");
+        CHECK("C10", (cmp < 0) == (want < 0) && (cmp > 0) == (want > 0), "sign differs from the wide comparison");
     }
 #endif
     CHECK("C10", vh_h_count == 0, "handler invoked on valid operands");
